@@ -322,6 +322,7 @@ def gen_valid_cases(rng, n, big, merge=False):
                     knobs['multi_occ'] = rng.random() < 0.7
                     knobs['multi_oneof'] = rng.random() < 0.7
                     knobs['matrix'] = rng.random() < 0.5
+                    knobs['ref_compared'] = True      # judged by the reference: do not emit the known F23 shape at depth
                 b = encode(sch, m, rng, knobs)
                 lines.append('unpack %d X%s' % (ty, b.hex()))
                 stats['encodings'] += 1
